@@ -215,6 +215,9 @@ def run(prop, rep, want):
     compile_fail = 0
     variants = {"compiled": 0, "tree_shaken": 0, "merged": 0}
     handles = []
+    sources_of = {}    # function key -> every source program it occurs in
+    pending = []       # unique functions not yet decided
+    bad_sources = set()
     validated_steps = 0
     validation_mismatches = []
     with QV() as qv:
@@ -225,8 +228,10 @@ def run(prop, rep, want):
                 mini = MiniProgram(prog, fid)
                 occurrences += 1
                 k = mini.key()
+                sources_of.setdefault(k, set()).add(name)
                 if k not in uniq:
-                    uniq[k] = (mini, {"source": name, "variant": variant, "fid": fid, "h": h})
+                    uniq[k] = (mini, {"source": name, "variant": variant, "fid": fid, "h": h, "key": k})
+                    pending.append(uniq[k])
             return prog
 
         n_validate = 40 if tier == "quick" else 400
@@ -252,33 +257,26 @@ def run(prop, rep, want):
                     add_program(name, "tree_shaken", ts["bytecode"], ts["compat"], ts["h"])
                 else:
                     rep.inconc("tree_shake failed on %s: %r" % (name, ts))
-        if "c07" in want:
-            rnd = random.Random(rep.seed + 1)
-            order = list(handles)
-            rnd.shuffle(order)
-            group = 4
-            n_groups = 12 if tier == "quick" else len(order) // group
-            for g in range(min(n_groups, len(order) // group)):
-                hs = [h for _, h in order[g * group:(g + 1) * group]]
-                names = [n for n, _ in order[g * group:(g + 1) * group]]
-                mg = qv.req(op="merge", hs=hs)
-                if mg.get("ok"):
-                    variants["merged"] += 1
-                    add_program("merge(" + ",".join(names) + ")", "merged", mg["bytecode"], mg["compat"], mg["h"])
-                else:
-                    rep.inconc("merge failed on %s: %r" % (names, mg))
-
-        # decide every unique function
-        items = list(uniq.values())
-        if "c07" not in want:
-            items = [(mini, occ) for (mini, occ) in items if any(i[0] == "TailCall" for i in mini.instrs)]
-        with mp.Pool(16) as pool:
-            every = 25 if tier == "quick" else 2
-            results = pool.map(_analyze, [(mini, timeout_ms, (k % every == 0)) for k, (mini, _) in enumerate(items)],
-                               chunksize=8)
-
         tailcall_sites = 0
-        for (mini, occ), r in zip(items, results):
+
+        def decide_pending():
+            """decide every unique function not decided yet"""
+            nonlocal tailcall_sites
+            items = list(pending)
+            del pending[:]
+            if "c07" not in want:
+                items = [(mini, occ) for (mini, occ) in items if any(i[0] == "TailCall" for i in mini.instrs)]
+            with mp.Pool(16) as pool:
+                every = 25 if tier == "quick" else 2
+                results = pool.map(_analyze, [(mini, timeout_ms, (k % every == 0)) for k, (mini, _) in enumerate(items)],
+                                   chunksize=8)
+            for (mini, occ), r in zip(items, results):
+                _decide_one(mini, occ, r)
+
+        def _decide_one(mini, occ, r):
+            nonlocal tailcall_sites
+            if r["static"] or r["verdict"] not in ("unsat",):
+                bad_sources.update(sources_of.get(occ["key"], ()))
             rep.states += r["nodes"]
             rep.transitions += r["edges"]
             rep.queries += 1
@@ -290,7 +288,7 @@ def run(prop, rep, want):
                 if r["agree"] is False:
                     rep.inconc("%s: the two encodings disagree" % where)
             if "c16" in want and "c07" not in want and r["tailcalls"] == 0:
-                continue
+                return
             if "c07" in want:
                 for (pc, msg) in r["static"]:
                     rep.violation("static:%s:%s" % (occ["source"], msg), "%s pc %d: %s" % (where, pc, msg),
@@ -328,6 +326,29 @@ def run(prop, rep, want):
                     else:
                         rep.inconc("%s: model %s at pc %d not confirmed by the Rust walk %r" % (
                             where, v["kind"], v["pc"], kinds))
+
+        decide_pending()
+        if "c07" in want:
+            # merge histories are built from programs whose own functions were all accepted above:
+            # merging preserves well-formedness *of well-formed inputs*; a program that already
+            # has a (reported) violation would only repeat it under a merged name
+            rnd = random.Random(rep.seed + 1)
+            order = [(n, h) for (n, h) in handles if n not in bad_sources]
+            rnd.shuffle(order)
+            group = 4
+            n_groups = 12 if tier == "quick" else len(order) // group
+            for g in range(min(n_groups, len(order) // group)):
+                hs = [h for _, h in order[g * group:(g + 1) * group]]
+                names = [n for n, _ in order[g * group:(g + 1) * group]]
+                mg = qv.req(op="merge", hs=hs)
+                if mg.get("ok"):
+                    variants["merged"] += 1
+                    add_program("merge(" + ",".join(names) + ")", "merged", mg["bytecode"], mg["compat"], mg["h"])
+                else:
+                    rep.inconc("merge failed on %s: %r" % (names, mg))
+            rep.extra["programs_excluded_from_merging"] = len(bad_sources)
+            decide_pending()
+
     rep.validated = validated_steps
     for m_ in validation_mismatches[:10]:
         rep.inconc("effect table disagrees with the real executor: %r" % (m_,))
@@ -338,6 +359,6 @@ def run(prop, rep, want):
     })
     rep.functions = ["every function of every compiled corpus program (%d unique of %d occurrences)" % (len(uniq), occurrences)]
     rep.bounds = {"paths": "all control-flow paths of each function (CFG proven acyclic per function)",
-                  "programs": "corpus: std/*.qv, examples, all test-suite source strings and spec examples, plus generated families: tail-call shapes (sqvm/gen_tail.py: 6 function kinds x 9 argument forms x 3 targets x 14 positions) and pattern-matching shapes (sqvm/gen_patterns.py: 8 subject types x 27 patterns x 9 contexts x 8 results), those the compiler accepts",
+                  "programs": "corpus: std/*.qv, examples, all test-suite source strings and spec examples, plus generated families: tail-call shapes (sqvm/gen_tail.py: 6 function kinds x 9 argument forms x 5 targets x 14 positions) and pattern-matching shapes (sqvm/gen_patterns.py: 8 subject types x 27 patterns x 9 contexts x 8 results), those the compiler accepts",
                   "merge histories": "%d groups of 4 programs merged into one real Environment" % variants["merged"]}
     return rep
